@@ -365,6 +365,19 @@ class Parser:
             self.__set_expected("identifier")
             return True
 
+        condition = (
+            ttype in ["comma", "right_parenthesis"]
+            and self.__curcommand.non_deterministic_args
+        )
+        if condition:
+            # end of a test with non deterministic arguments inside a
+            # test list: finalize it before going on with the list
+            self.__curcommand.reassign_arguments()
+            if not self.__check_command_completion(testsemicolon=False):
+                return False
+            # the token the enclosing test list was waiting for is this one
+            self.__expected = None
+
         if ttype == "comma":
             self.__set_expected("identifier")
             return True
